@@ -324,6 +324,13 @@ int main(int argc, char **argv) {
           en::Family F; F.name = "two_tracks_second_song"; F.count = per * per * 2 * 4; F.chunk = 256; F.budget_s = 30; F.describe = "the same two-track files loaded as the SECOND song of a handle: a three-track song was loaded first, with {tracks 0+1 off, solo 1, track 1 off + solo 0, track 2 off at tempo x2}, and partly played; the new song has no options set and must play completely";
           F.run = [per](uint64_t i, en::CaseOut &o) { uint64_t f = i % (per * per * 2); Song s = songN(f, 2, 2); Cfg c; c.prior = 1 + (int)(i / (per * per * 2)); if(i % 40009 == 3) o.sample = song_str(s) + " prior " + std::to_string(c.prior); check_c07(s, c, o); };
           fams.push_back(F); }
+        { // delta times over the boundaries of the variable-length quantity (1, 2, 3 and 4 bytes)
+          static const uint32_t BD[] = {127, 128, 16383, 16384, 2097151, 2097152, 268435455};
+          en::Family F; F.name = "varlen_delta_boundaries"; F.count = 7 * 8 * 2 * 2; F.chunk = 8; F.budget_s = 30; F.describe = "format-0 files {cc7, +D noteOn, +1 noteOff, +D2 text, End-of-Track} with D in {127,128,16383,16384,2097151,2097152,268435455} (variable-length quantities of 1..4 bytes), D2 in {0, the same set}, division {96,480}, End-of-Track delta {0, 2097152}; tick-driven with the returned delay";
+          F.run = [](uint64_t i, en::CaseOut &o) { uint64_t r = i; uint32_t D = BD[r % 7]; r /= 7; uint32_t D2 = (r % 8) ? BD[r % 8 - 1] : 0; r /= 8; unsigned dv = (r % 2) ? 480 : 96; r /= 2; uint32_t eot = r ? 2097152u : 0u;
+            Song s; s.format = 0; s.division = dv; s.tracks.resize(1); s.eot_delta = {eot}; s.tracks[0] = {{0, K_CC7}, {D, K_ON}, {1, K_OFF}, {D2, K_TEXT}};
+            o.sample = song_str(s); Cfg c; check_c07(s, c, o); };
+          fams.push_back(F); }
         { uint64_t per = seqs_upto(15, 1);
           en::Family F; F.name = "three_tracks"; F.count = per * per * per * 3 * 3; F.chunk = 128; F.budget_s = 30; F.describe = "every format-1 file with 3 tracks of up to 1 event each x lone End-of-Track position x driver {self-fed, 1 ms, play 1024}";
           F.run = [per](uint64_t i, en::CaseOut &o) { uint64_t f = i % (per * per * per * 3); int drv = (int)(i / (per * per * per * 3)); Song s = songN(f, 3, 1); Cfg c; c.driver = drv; check_c07(s, c, o); };
